@@ -23,7 +23,8 @@
 //!   float argument F = f:<base>:<signif hex int>:<exp dec>:<precision dec>:<mode Z|A|U|D|E|H>
 //!   float result     = <signif hex> <exp dec> <precision dec>
 //!   f.parse d:base M S              FromStr / from_str_native / Repr::from_str_native at base, mode M -> result | err Kind
-//!   f.fmt K P W FL F                K = disp | lexp | uexp ; P = none | d:precision ; W = none | d:width ; FL = - | + -> s:bytes
+//!   f.fmt K P W FL F                K = disp | lexp | uexp | bin | oct | lhex | uhex | dbg | dbga | rdbg | rdbga ; P = none | d:precision ;
+//!                                   W = none | d:width ; FL = - | + | 0 | +0 | < | ^ | > | *< | *^ | *> | +*^ | 0< -> s:bytes
 //!   f.rt F                          to_string() then parse: -> `<text s:bytes> <result of the parse>`
 //!   f.with_base d:newbase F         with_base::<NewB>() -> result + Exact | Inexact:<adj>   (+ to_decimal / to_binary forms)
 //!   f.with_base_prec d:newbase d:p F   with_base_and_precision::<NewB>(p)
@@ -555,28 +556,98 @@ fn fparse<R: Round, const B: Word>(s: &str) -> Res {
     merge_parse(&["FromStr", "from_str_native", "Repr::from_str_native"], rs)
 }
 
-macro_rules! ffmt_leaf {
-    ($v:expr, $p:expr, $w:expr, $plus:expr, $t:literal) => {
-        match ($p, $w, $plus) {
-            (None, None, false) => format!(concat!("{:", $t, "}"), $v),
-            (None, None, true) => format!(concat!("{:+", $t, "}"), $v),
-            (Some(p), None, false) => format!(concat!("{:.p$", $t, "}"), $v, p = p),
-            (Some(p), None, true) => format!(concat!("{:+.p$", $t, "}"), $v, p = p),
-            (None, Some(w), false) => format!(concat!("{:w$", $t, "}"), $v, w = w),
-            (None, Some(w), true) => format!(concat!("{:+w$", $t, "}"), $v, w = w),
-            (Some(p), Some(w), false) => format!(concat!("{:w$.p$", $t, "}"), $v, w = w, p = p),
-            (Some(p), Some(w), true) => format!(concat!("{:+w$.p$", $t, "}"), $v, w = w, p = p),
+macro_rules! ffmt_arm {
+    ($v:expr, $p:expr, $w:expr, $spec:literal, $t:literal) => {
+        match ($p, $w) {
+            (None, None) => format!(concat!("{:", $spec, $t, "}"), $v),
+            (Some(p), None) => format!(concat!("{:", $spec, ".p$", $t, "}"), $v, p = p),
+            (None, Some(w)) => format!(concat!("{:", $spec, "w$", $t, "}"), $v, w = w),
+            (Some(p), Some(w)) => format!(concat!("{:", $spec, "w$.p$", $t, "}"), $v, w = w, p = p),
         }
     };
 }
 
-fn ffmt<T: Display + LowerExp + UpperExp>(v: &T, kind: &str, p: Option<usize>, w: Option<usize>, plus: bool) -> Result<String, String> {
+/// FL = flag token: - | + | 0 | +0 | < | ^ | > | *< | *^ | *> | +*^ | 0<   (fill `*`, alignment, sign, zero flag)
+macro_rules! ffmt_leaf {
+    ($v:expr, $p:expr, $w:expr, $fl:expr, $t:literal) => {
+        match $fl {
+            "-" => ffmt_arm!($v, $p, $w, "", $t),
+            "+" => ffmt_arm!($v, $p, $w, "+", $t),
+            "0" => ffmt_arm!($v, $p, $w, "0", $t),
+            "+0" => ffmt_arm!($v, $p, $w, "+0", $t),
+            "<" => ffmt_arm!($v, $p, $w, "<", $t),
+            "^" => ffmt_arm!($v, $p, $w, "^", $t),
+            ">" => ffmt_arm!($v, $p, $w, ">", $t),
+            "*<" => ffmt_arm!($v, $p, $w, "*<", $t),
+            "*^" => ffmt_arm!($v, $p, $w, "*^", $t),
+            "*>" => ffmt_arm!($v, $p, $w, "*>", $t),
+            "+*^" => ffmt_arm!($v, $p, $w, "*^+", $t),
+            "0<" => ffmt_arm!($v, $p, $w, "<0", $t),
+            fl => return Err(format!("bad-arg flags {}", fl)),
+        }
+    };
+}
+
+fn ffmt<T: Display + LowerExp + UpperExp + core::fmt::Debug>(v: &T, kind: &str, p: Option<usize>, w: Option<usize>, fl: &str) -> Result<String, String> {
     Ok(match kind {
-        "disp" => ffmt_leaf!(v, p, w, plus, ""),
-        "lexp" => ffmt_leaf!(v, p, w, plus, "e"),
-        "uexp" => ffmt_leaf!(v, p, w, plus, "E"),
+        "disp" => ffmt_leaf!(v, p, w, fl, ""),
+        "lexp" => ffmt_leaf!(v, p, w, fl, "e"),
+        "uexp" => ffmt_leaf!(v, p, w, fl, "E"),
+        "dbg" => format!("{:?}", v),
+        "dbga" => format!("{:#?}", v),
         _ => return Err(format!("bad-arg kind {}", kind)),
     })
+}
+
+fn ffmt_bin<T: core::fmt::Binary>(v: &T, p: Option<usize>, w: Option<usize>, fl: &str) -> Result<String, String> {
+    Ok(ffmt_leaf!(v, p, w, fl, "b"))
+}
+fn ffmt_oct<T: core::fmt::Octal>(v: &T, p: Option<usize>, w: Option<usize>, fl: &str) -> Result<String, String> {
+    Ok(ffmt_leaf!(v, p, w, fl, "o"))
+}
+fn ffmt_lhex<T: core::fmt::LowerHex>(v: &T, p: Option<usize>, w: Option<usize>, fl: &str) -> Result<String, String> {
+    Ok(ffmt_leaf!(v, p, w, fl, "x"))
+}
+fn ffmt_uhex<T: core::fmt::UpperHex>(v: &T, p: Option<usize>, w: Option<usize>, fl: &str) -> Result<String, String> {
+    Ok(ffmt_leaf!(v, p, w, fl, "X"))
+}
+
+/// (kind, precision, width, flags, value) of an `f.fmt` case
+fn fmt_args<R: Round, const B: Word>(args: &[&str]) -> Result<(String, Option<usize>, Option<usize>, String, FBig<R, B>), String> {
+    Ok((
+        arg(args, 0)?.to_string(),
+        opt_usize(arg(args, 1)?)?,
+        opt_usize(arg(args, 2)?)?,
+        arg(args, 3)?.to_string(),
+        build::<R, B>(&p_farg(arg(args, 4)?)?),
+    ))
+}
+
+/// Binary of base 2 (FBig and Repr must print the same for mode Zero)
+fn frun_bin<R: Round, const B: Word>(_op: &str, args: &[&str]) -> Res
+where
+    FBig<R, B>: core::fmt::Binary,
+{
+    let (_k, p, w, fl, a) = fmt_args::<R, B>(args)?;
+    merge(&["fmt"], vec![run1t(|| fs(ffmt_bin(&a, p, w, &fl).unwrap()))])
+}
+fn frun_oct<R: Round, const B: Word>(_op: &str, args: &[&str]) -> Res
+where
+    FBig<R, B>: core::fmt::Octal,
+{
+    let (_k, p, w, fl, a) = fmt_args::<R, B>(args)?;
+    merge(&["fmt"], vec![run1t(|| fs(ffmt_oct(&a, p, w, &fl).unwrap()))])
+}
+fn frun_hex<R: Round, const B: Word>(_op: &str, args: &[&str]) -> Res
+where
+    FBig<R, B>: core::fmt::LowerHex + core::fmt::UpperHex,
+{
+    let (k, p, w, fl, a) = fmt_args::<R, B>(args)?;
+    if k == "lhex" {
+        merge(&["fmt"], vec![run1t(|| fs(ffmt_lhex(&a, p, w, &fl).unwrap()))])
+    } else {
+        merge(&["fmt"], vec![run1t(|| fs(ffmt_uhex(&a, p, w, &fl).unwrap()))])
+    }
 }
 
 fn opt_usize(s: &str) -> Result<Option<usize>, String> {
@@ -590,14 +661,17 @@ fn opt_usize(s: &str) -> Result<Option<usize>, String> {
 fn frun<R: Round, const B: Word>(op: &str, args: &[&str]) -> Res {
     match op {
         "f.fmt" => {
-            let kind = arg(args, 0)?;
-            let p = opt_usize(arg(args, 1)?)?;
-            let w = opt_usize(arg(args, 2)?)?;
-            let plus = arg(args, 3)? == "+";
-            let a = build::<R, B>(&p_farg(arg(args, 4)?)?);
+            let (kind, p, w, fl, a) = fmt_args::<R, B>(args)?;
+            let kind = kind.as_str();
+            if kind == "rdbg" {
+                return merge(&["fmt"], vec![run1t(|| fs(format!("{:?}", a.repr())))]);
+            }
+            if kind == "rdbga" {
+                return merge(&["fmt"], vec![run1t(|| fs(format!("{:#?}", a.repr())))]);
+            }
             let mut names = vec!["fmt"];
-            let mut rs = vec![run1t(|| fs(ffmt(&a, kind, p, w, plus).unwrap()))];
-            if kind == "disp" && p.is_none() && w.is_none() && !plus {
+            let mut rs = vec![run1t(|| fs(ffmt(&a, kind, p, w, &fl).unwrap()))];
+            if kind == "disp" && p.is_none() && w.is_none() && fl == "-" {
                 names.push("to_string");
                 rs.push(run1t(|| fs(a.to_string())));
             }
@@ -894,7 +968,14 @@ pub fn dispatch_float(op: &str, args: &[&str]) -> Option<Res> {
             }
             "f.fmt" => {
                 let a = p_farg(arg(args, 4)?)?;
-                fbase_table!(frun, a.base, a.mode, op, args)
+                match (arg(args, 0)?, a.base) {
+                    ("bin", 2) => fmode_table!(frun_bin, 2, a.mode, op, args),
+                    ("oct", 8) => fmode_table!(frun_oct, 8, a.mode, op, args),
+                    ("lhex", 2) | ("uhex", 2) => fmode_table!(frun_hex, 2, a.mode, op, args),
+                    ("lhex", 16) | ("uhex", 16) => fmode_table!(frun_hex, 16, a.mode, op, args),
+                    ("bin", _) | ("oct", _) | ("lhex", _) | ("uhex", _) => Err("bad-arg trait not implemented for the base".to_string()),
+                    _ => fbase_table!(frun, a.base, a.mode, op, args),
+                }
             }
             "f.rt" => {
                 let a = p_farg(arg(args, 0)?)?;
